@@ -172,6 +172,14 @@ Definition donate (s : state) (from : N) (x : Z) : state * out :=
   | Some b => (with_money s (st_prov s) (st_coll s) b, Ok)
   end.
 
+(* ---- the reward block's strike (keeper.burnContract, run from BeginBlock for a prover that missed its window):
+   the provider's burn counter goes up by one; a prover string without a provider record is skipped.  It touches
+   neither the collateral records nor any balance, and it never removes the provider record. ---- *)
+Definition burn (s : state) (c : signer) : state :=
+  fst (upd_prov s c true (fun p =>
+    {| p_addr := p_addr p; p_ip := p_ip p; p_space := p_space p; p_creator := p_creator p;
+       p_burned := p_burned p + 1; p_keybase := p_keybase p; p_claimers := p_claimers p |})).
+
 Inductive op :=
 | OInit (c : signer) (vb ipok : bool) (ip : N) (space : Z) (kb : N)
 | OShutdown (c : signer) (vb : bool)
@@ -181,7 +189,8 @@ Inductive op :=
 | OSetSpace (c : signer) (vb : bool) (space : Z)
 | OAddClaimer (c : signer) (vb : bool) (cl : signer)
 | ORemoveClaimer (c : signer) (vb : bool) (cl : signer)
-| ODonate (from : N) (x : Z).
+| ODonate (from : N) (x : Z)
+| OBurn (c : signer).
 
 Definition step (s : state) (o : op) : state * out :=
   match o with
@@ -194,6 +203,7 @@ Definition step (s : state) (o : op) : state * out :=
   | OAddClaimer c vb cl => add_claimer s c vb cl
   | ORemoveClaimer c vb cl => remove_claimer s c vb cl
   | ODonate from x => donate s from x
+  | OBurn c => (burn s c, Ok)
   end.
 
 Definition run (s : state) (ops : list op) : state := fold_left (fun s o => fst (step s o)) ops s.
@@ -203,7 +213,7 @@ Definition op_signer (o : op) : option signer :=
   match o with
   | OInit c _ _ _ _ _ | OShutdown c _ | OSetIp c _ _ _ | OSetKeybase c _ _ | OSetSpace c _ _
   | OAddClaimer c _ _ | ORemoveClaimer c _ _ => Some c
-  | OSetPrice _ | ODonate _ _ => None
+  | OSetPrice _ | ODonate _ _ | OBurn _ => None
   end.
 Definition op_account (o : op) : option N :=
   match o with
